@@ -12,11 +12,12 @@
 (*   Present      a record that was received for us and is within its life     *)
 (*                is stored (C04 C17);                                         *)
 (*   Reported     eviction reports exactly the instances whose PTR or last    *)
-(*                SRV ran out, and the hosts of the addresses that ran out;    *)
+(*                SRV ran out, and the hosts of the addresses that ran out     *)
+(*                (asserted in the eviction step);                             *)
 (* and on the mechanism alone: WellFormed, KeysNeeded, SubsNeeded (C20).      *)
 (***************************************************************************)
 EXTENDS Naturals, Sequences, FiniteSets, TLC
-CONSTANTS MaxArr, MaxTime, EagerKeys, SplitByFlush, KeepSubs, FlushVaries, Kinds
+CONSTANTS MaxArr, MaxTime, EagerKeys, SplitByFlush, KeepSubs, FlushVaries, Kinds, TTLs
 C == INSTANCE Cache
 H == INSTANCE Heard
 
@@ -38,39 +39,38 @@ HId(x) == <<x[3], x[4], x[5], x[7]>>
 (* a record kind has one flush bit for life unless FlushVaries                *)
 FlOf(k) == k \notin {"P", "PS"}
 
-VARIABLES c, tab, now, narr, rep
-vars == <<c, tab, now, narr, rep>>
-Init == c = C!Empty /\ tab = <<>> /\ now = 0 /\ narr = 0 /\ rep = [svc |-> {}, addr |-> {}, at |-> 0, pre |-> C!Empty]
-Tick == now < MaxTime /\ now' = now + 500 /\ UNCHANGED <<c, tab, narr, rep>>
+VARIABLES c, tab, now, narr
+vars == <<c, tab, now, narr>>
+Init == c = C!Empty /\ tab = <<>> /\ now = 0 /\ narr = 0
+Tick == now < MaxTime /\ now' = now + 500 /\ UNCHANGED <<c, tab, narr>>
 Recv(k, ttl, fl, fu) ==
   /\ narr < MaxArr /\ narr' = narr + 1
   /\ c' = C!Add(c, CRec(k, ttl, fl), 2, now, fu).c
   /\ tab' = H!Arrive(tab, HRec(k, ttl, fl), 2, now, fu)
-  /\ UNCHANGED <<now, rep>>
-EvictStep == /\ LET r == C!Evict(c, now) IN c' = r.c /\ rep' = [svc |-> r.svc, addr |-> r.addr, at |-> now, pre |-> c]
+  /\ UNCHANGED now
+(* what an eviction reports, against the content before it (checked in the step: no history variable) *)
+Reported(p, t, rep) ==
+  LET ranOut(x) == t >= p.recs[x].expires
+      ptrOut == {<<x[2], p.recs[x].tg>> : x \in {y \in C!Ids(p) : y[1] = "ptr" /\ ranOut(y)}}
+      srvOut == {<<x[2], p.recs[x].tg>> : x \in {y \in C!Ids(p) : y[1] = "ptr" /\ C!Under(p, "srv", p.recs[y].tg) # {}
+                                                   /\ \A s \in C!Under(p, "srv", p.recs[y].tg) : ranOut(s)}}
+  IN /\ ptrOut \cup srvOut \subseteq rep.svc
+     /\ (~EagerKeys => rep.svc \subseteq ptrOut \cup srvOut)
+     /\ rep.addr = {p.recs[x].name : x \in {y \in C!Ids(p) : y[1] = "addr" /\ ranOut(y)}}
+EvictStep == /\ LET r == C!Evict(c, now) IN Assert(Reported(c, now, r), <<"Reported", c, now, r.svc, r.addr>>) /\ c' = r.c
              /\ UNCHANGED <<tab, now, narr>>
 VerifyStep == /\ \E x \in C!Ids(c) : x[1] = "srv"
               /\ c' = C!Verify(c, IN1, now + 1000).c
               /\ tab' = H!Shorten(tab, IN1, now + 1000, now)
-              /\ UNCHANGED <<now, narr, rep>>
+              /\ UNCHANGED <<now, narr>>
 Next == \/ Tick \/ EvictStep \/ VerifyStep
-        \/ \E k \in Kinds, ttl \in {0, 1, 2, 4}, fl \in BOOLEAN, fu \in BOOLEAN :
+        \/ \E k \in Kinds, ttl \in TTLs, fl \in BOOLEAN, fu \in BOOLEAN :
               (FlushVaries \/ fl = FlOf(k)) /\ Recv(k, ttl, fl, fu)
 Spec == Init /\ [][Next]_vars
 
 NeverLonger == \A x \in C!Ids(c) : c.recs[x].expires <= tab[HId(x)].exp
 NotEarlier  == \A x \in C!Ids(c) : c.recs[x].expires >= tab[HId(x)].vexp
 Present     == \A id \in DOMAIN tab : (tab[id].forus /\ now < tab[id].vexp) => \E x \in C!Ids(c) : HId(x) = id
-(* what the last eviction reported, against the content before it             *)
-Reported ==
-  LET p == rep.pre  t == rep.at
-      ranOut(x) == t >= p.recs[x].expires
-      ptrOut == {<<x[2], p.recs[x].tg>> : x \in {y \in C!Ids(p) : y[1] = "ptr" /\ ranOut(y)}}
-      srvOut == {<<x[2], p.recs[x].tg>> : x \in {y \in C!Ids(p) : y[1] = "ptr" /\ C!Under(p, "srv", p.recs[y].tg) # {}
-                                                   /\ \A s \in C!Under(p, "srv", p.recs[y].tg) : ranOut(s)}}
-  IN /\ ptrOut \cup srvOut \subseteq rep.svc
-     /\ (~EagerKeys => rep.svc \subseteq ptrOut \cup srvOut)
-     /\ rep.addr = {x[4] : x \in {y \in C!Ids(p) : y[1] = "addr" /\ ranOut(y)}}
 WellFormed == C!WellFormed(c)
 KeysNeeded == C!KeysNeeded(c)
 SubsNeeded == C!SubsNeeded(c)
